@@ -287,7 +287,8 @@ Definition is_evt (e : event) : bool := has "#evt" e.
 Inductive msg :=
 | MNew (name : string) (node : nat) (action : Z) (group : num) (params : list (string * num))
 | MSet (node : nat) (params : list (string * num))
-| MFree (node : nat).
+| MFree (node : nat)
+| MDelayed (d : Q) (m : msg).            (* only inside cleanup lists: _MonoOffEvent with a 'delay' *)
 Definition bundle := (Q * msg)%type.
 
 Record desc := mkDesc { d_controls : list string; d_keep_gate : bool }.
@@ -425,6 +426,7 @@ Inductive vstream := VSeq (l : list value) | VRep (v : value).
 Inductive pat :=
 | PBind (kvs : list (string * vstream))
 | PMono (instr : string) (kvs : list (string * vstream))
+| PMonoA (instr : string) (kvs : list (string * vstream))   (* Pmono(instrument, mapping, articulate=True) *)
 | PChain (ps : list pat)
 | PPar (ps : list pat)
 | PDelta (t : value) (p : pat)
@@ -436,6 +438,7 @@ Inductive pat :=
 Inductive st :=
 | SBind (kvs : list (string * vstream))
 | SMono (instr : string) (kvs : list (string * vstream)) (live : option (event * list string))
+| SMonoA (instr : string) (kvs : list (string * vstream)) (live : option (event * list string))
 | SChain (ss : list st)                                  (* reversed(self.patterns) *)
 | SPar (started : bool) (q : spec) (now : num) (cs : list st)
 | SDelta (pending : bool) (t : value) (s : st)
@@ -451,6 +454,7 @@ Fixpoint init (p : pat) : st :=
   match p with
   | PBind kvs => SBind kvs
   | PMono i kvs => SMono i kvs None
+  | PMonoA i kvs => SMonoA i kvs None
   | PChain ps => SChain (rev (map init ps))
   | PPar ps => SPar false spec_init (F 0) (map init ps)
   | PDelta t p => SDelta true t (init p)
@@ -483,6 +487,7 @@ Inductive res :=
 Fixpoint pending_offs K (s : st) : list msg :=
   match s with
   | SMono _ _ (Some (e, _)) => [mono_off (node_of e) (truthy (plain K e "has_gate"))]
+  | SMonoA _ _ (Some (e, _)) => [mono_off (node_of e) (truthy (plain K e "has_gate"))]
   | SChain ss => flat_map (pending_offs K) ss
   | SPar _ _ _ cs => flat_map (pending_offs K) cs
   | SDelta _ _ s' => pending_offs K s'
@@ -552,6 +557,33 @@ Fixpoint snext (depth : nat) (s : st) (inev : event) (mc : nat) : res * nat :=
             let e2 := put "node_id" (VNum (I (Z.of_nat (node_of on)))) e1 in
             let e3 := put "mono_params" (VNames names) e2 in
             (RYield e3 (SMono instr kvs' (Some (on, names))) [], mc)
+        end
+    | SMonoA instr kvs None =>
+        (* _embed_mono_artic, no node: the event is prepared as a _mono_on event (a node id is always taken); it stays
+           one only if it is held until the next event (sustain >= delta) and is not a rest, otherwise it is re-typed 'note' *)
+        match dict_next kvs with
+        | None => (RStop [] inev, mc)
+        | Some (upd, kvs') =>
+            let e0 := put "type" (VSym "_mono_on") (as_event inev) in
+            let e1 := mono_prepare K lib instr (2 * mc + 1) (update e0 upd) in
+            if nge (vnum (ev_call K e1 "sustain")) (vnum (ev_call K e1 "delta")) && negb (is_rest e1)
+            then (RYield e1 (SMonoA instr kvs' (Some (e1, map fst (params_of e1)))) [], S mc)
+            else (RYield (put "type" (VSym "note") e1) (SMonoA instr kvs' None) [], S mc)
+        end
+    | SMonoA instr kvs (Some (on, names)) =>
+        match dict_next kvs with
+        | None => (RStop [mono_off (node_of on) (truthy (plain K on "has_gate"))] inev, mc)
+        | Some (upd, kvs') =>
+            let e0 := put "type" (VSym "_mono_set") (as_event inev) in
+            let e1 := update e0 upd in
+            let e2 := put "node_id" (VNum (I (Z.of_nat (node_of on)))) e1 in
+            let e3 := put "mono_params" (VNames names) e2 in
+            let off := mono_off (node_of on) (truthy (plain K on "has_gate")) in
+            if nlt (vnum (ev_call K e3 "sustain")) (vnum (ev_call K e3 "delta"))
+            then (* cleanup_event['delay'] = sustain; cleanup_event.play(): the release is sent now, stamped later *)
+                 (RYield e3 (SMonoA instr kvs' None) [MDelayed (toQ (vnum (ev_call K e3 "sustain"))) off], mc)
+            else if is_rest e3 then (RYield e3 (SMonoA instr kvs' None) [off], mc)
+            else (RYield e3 (SMonoA instr kvs' (Some (on, names))) [], mc)
         end
     | SChain ss =>
         (* for stream in streams: inevent = stream.next(inevent) *)
@@ -765,6 +797,7 @@ Fixpoint player_c (fuel depth : nat) (ct : ctl) (s : st) (proto : event) (mc : n
 Fixpoint sends_from (lat : Q) (k : nat) (log : list entry) : list bundle :=
   match log with
   | [] => []
+  | LOff t (MDelayed d m) :: r => (stamp t (lat + d), m) :: sends_from lat k r
   | LOff t m :: r => (stamp t lat, m) :: sends_from lat k r
   | LEv t e :: r => (if is_rest e then [] else play_event K lib lat t k e) ++ sends_from lat (S k) r
   end.
@@ -795,6 +828,7 @@ Fixpoint canon_score (seen : list nat) (l : list bundle) : list bundle :=
   | (t, MNew nm n a g ps) :: r => let '(i, seen') := rename seen n in (t, MNew nm i a g ps) :: canon_score seen' r
   | (t, MSet n ps) :: r => let '(i, seen') := rename seen n in (t, MSet i ps) :: canon_score seen' r
   | (t, MFree n) :: r => let '(i, seen') := rename seen n in (t, MFree i) :: canon_score seen' r
+  | (t, MDelayed d m) :: r => (t, MDelayed d m) :: canon_score seen r
   end.
 
 (* closeness of two numbers: equal kind (int/float/error) and |a-b| <= 2^-40 (1 + |b|) *)
